@@ -25,7 +25,7 @@ func checkC03(ctx *Ctx) {
 		return
 	}
 	quietLogs()
-	n := ctx.N(48, 1200)
+	n := ctx.N(240, 1600)
 	for i := 0; i < n; i++ {
 		if !ctx.Mine(i) {
 			continue
